@@ -272,7 +272,7 @@ Qed.
 Lemma cut_state_rrsets o sec eff l r r' :
   SInv eff r -> add_rrsets o sec l r = Ok (true, r') ->
   exists l1 rs l3 rc, l = l1 ++ rs :: l3 /\ add_rrsets o sec l1 r = Ok (false, rc) /\
-                      r' = set_rsec rc sec /\ rflags rc = rflags r.
+                      r' = set_rsec rc sec /\ rflags rc = rflags r /\ add_rrset o sec rs rc = Ok (true, r').
 Proof.
   intros I H. destruct (add_rrsets_cut _ _ _ _ _ _ H) as (l1 & l2 & rc & -> & A & [(Hb & _)|(_ & rs & l3 & -> & B)]);
     [discriminate|].
@@ -280,13 +280,15 @@ Proof.
   rewrite add_rrset_tracked in B.
   destruct (tracked_spec _ _ _ _ _ _ (ext_rrset_em _ _ _) (proj1 (proj2 (proj2 Ic))) B) as (_ & em & new & _ & _ & [(Hb & _)|(_ & _ & ->)]);
     [discriminate|].
-  exists l1, rs, l3, rc. auto.
+  exists l1, rs, l3, rc. split; [reflexivity|]. split; [exact A|]. split; [reflexivity|]. split; [exact Fc|].
+  rewrite add_rrset_tracked. exact B.
 Qed.
 
 Lemma cut_state_questions o eff l r r' :
   SInv eff r -> add_questions o l r = Ok (true, r') ->
   exists l1 rs l3 rc, l = l1 ++ rs :: l3 /\ add_questions o l1 r = Ok (false, rc) /\
-                      r' = set_rsec rc 0 /\ rflags rc = rflags r.
+                      r' = set_rsec rc 0 /\ rflags rc = rflags r /\
+                      add_question o (rname rs) (rtype rs) (rclass rs) rc = Ok (true, r').
 Proof.
   intros I H. destruct (add_questions_cut _ _ _ _ _ H) as (l1 & l2 & rc & -> & A & [(Hb & _)|(_ & rs & l3 & -> & B)]);
     [discriminate|].
@@ -294,7 +296,8 @@ Proof.
   rewrite add_question_tracked in B.
   destruct (tracked_spec _ _ _ _ _ _ (ext_q_em _ _ _ _) (proj1 (proj2 (proj2 Ic))) B) as (_ & em & new & _ & _ & [(Hb & _)|(_ & _ & ->)]);
     [discriminate|].
-  exists l1, rs, l3, rc. auto.
+  exists l1, rs, l3, rc. split; [reflexivity|]. split; [exact A|]. split; [reflexivity|]. split; [exact Fc|].
+  rewrite add_question_tracked. exact B.
 Qed.
 
 Definition is_nil {A} (l : list A) : bool := match l with [] => true | _ => false end.
@@ -305,13 +308,60 @@ Proof. unfold req. repeat split; reflexivity. Qed.
 Lemma req_set2 r s : req (set_rsec r s) r.
 Proof. unfold req. repeat split; reflexivity. Qed.
 
-Theorem trunc_prefix_lemma m origin ms rp pad w :
+(* ---------- truncation is maximal: the first record set that was left out really did not fit ---------- *)
+Lemma add_rrsets_app o sec : forall l1 l2 r,
+  add_rrsets o sec (l1 ++ l2) r =
+  do br <- add_rrsets o sec l1 r; if fst br then Ok br else add_rrsets o sec l2 (snd br).
+Proof.
+  induction l1 as [|rs l1 IH]; intros l2 r; [reflexivity|].
+  cbn [app add_rrsets]. destruct (add_rrset o sec rs r) as [[b r1]| |]; cbn [bind fst snd]; try reflexivity.
+  destruct b; [reflexivity|]. apply IH.
+Qed.
+
+Lemma add_questions_app o : forall l1 l2 r,
+  add_questions o (l1 ++ l2) r =
+  do br <- add_questions o l1 r; if fst br then Ok br else add_questions o l2 (snd br).
+Proof.
+  induction l1 as [|rs l1 IH]; intros l2 r; [reflexivity|].
+  cbn [app add_questions]. destruct (add_question o (rname rs) (rtype rs) (rclass rs) r) as [[b r1]| |]; cbn [bind fst snd]; try reflexivity.
+  destruct b; [reflexivity|]. apply IH.
+Qed.
+
+(* the run of a message cut to (q, a, u, d) whose section loops reach an overflow *)
+Lemma overflow_run m o ms rp pad q a u d r1 tr r2 :
+  let r0 := mkRst (repeat 0 12) [] 0 0 0 0 0 (mflags m) (eff_limit ms rp) 0 false in
+  reserve (compute_opt_reserve m pad) r0 = Ok r1 -> compute_tsig_reserve m = Ok tr -> reserve tr r1 = Ok r2 ->
+  (exists b1 s1 b2 s2 b3 s3 s4,
+     add_questions o q r2 = Ok (b1, s1) /\
+     (if b1 then Ok (b1, s1) else add_rrsets o 1 a s1) = Ok (b2, s2) /\
+     (if b2 then Ok (b2, s2) else add_rrsets o 2 u s2) = Ok (b3, s3) /\
+     (if b3 then Ok (b3, s3) else add_rrsets o 3 d s3) = Ok (true, s4)) ->
+  to_wire (cut_msg m (mflags m) q a u d) o ms rp false pad = Lib eTooBig.
+Proof.
+  intros r0 R1 TR R2 (b1 & s1 & b2 & s2 & b3 & s3 & s4 & S1 & S2 & S3 & S4).
+  unfold to_wire, to_wire_st. cbn [cut_msg mflags mq man mau mad mopt mtsig mid].
+  change (compute_opt_reserve (cut_msg m (mflags m) q a u d) pad) with (compute_opt_reserve m pad).
+  change (compute_tsig_reserve (cut_msg m (mflags m) q a u d)) with (compute_tsig_reserve m).
+  fold r0. rewrite R1. cbn [bind]. rewrite TR. cbn [bind]. rewrite R2. cbn [bind].
+  rewrite S1. cbn [bind fst snd]. rewrite S2. cbn [bind fst snd]. rewrite S3. cbn [bind fst snd]. rewrite S4.
+  reflexivity.
+Qed.
+
+Theorem trunc_prefix_maximal_lemma m origin ms rp pad w :
   to_wire m origin ms rp true pad = Ok w ->
   exists q1 q2 a1 a2 u1 u2 d1 d2,
     mq m = q1 ++ q2 /\ man m = a1 ++ a2 /\ mau m = u1 ++ u2 /\ mad m = d1 ++ d2 /\
     (q2 <> [] -> a1 = [] /\ u1 = [] /\ d1 = []) /\ (a2 <> [] -> u1 = [] /\ d1 = []) /\ (u2 <> [] -> d1 = []) /\
     to_wire (cut_msg m (if cut_before q2 a2 u2 then Z.lor (mflags m) fTC else mflags m) q1 a1 u1 d1)
-            origin ms rp false pad = Ok w.
+            origin ms rp false pad = Ok w /\
+    (forall rs l3, q2 = rs :: l3 ->
+       to_wire (cut_msg m (mflags m) (q1 ++ [rs]) [] [] []) origin ms rp false pad = Lib eTooBig) /\
+    (forall rs l3, q2 = [] -> a2 = rs :: l3 ->
+       to_wire (cut_msg m (mflags m) q1 (a1 ++ [rs]) [] []) origin ms rp false pad = Lib eTooBig) /\
+    (forall rs l3, q2 = [] -> a2 = [] -> u2 = rs :: l3 ->
+       to_wire (cut_msg m (mflags m) q1 a1 (u1 ++ [rs]) []) origin ms rp false pad = Lib eTooBig) /\
+    (forall rs l3, q2 = [] -> a2 = [] -> u2 = [] -> d2 = rs :: l3 ->
+       to_wire (cut_msg m (mflags m) q1 a1 u1 (d1 ++ [rs])) origin ms rp false pad = Lib eTooBig).
 Proof.
   intros H. unfold to_wire in H. apply bind_ok in H. destruct H as (r & H & Hw). injection Hw as <-.
   unfold to_wire_st in H.
@@ -340,7 +390,7 @@ Proof.
   destruct b1.
   - (* cut in the question section *)
     injection S2' as <- <-. injection S3 as <- <-. injection S4 as <- <-. injection R3 as <-.
-    destruct (cut_state_questions _ _ _ _ _ I2 S1) as (q1 & rs & l3 & rc & EQ & A & -> & FC).
+    destruct (cut_state_questions _ _ _ _ _ I2 S1) as (q1 & rs & l3 & rc & EQ & A & -> & FC & B).
     cbn [rsec set_rsec Z.ltb Z.compare] in H.
     match type of H with finish _ _ _ _ _ ?x = _ => set (r3c := x) in * end.
     assert (RQ : req r3c rc) by (unfold r3c, req; repeat split; reflexivity).
@@ -349,11 +399,16 @@ Proof.
     exists q1, (rs :: l3), [], (man m), [], (mau m), [], (mad m).
     split; [exact EQ|]. repeat (split; [reflexivity|]).
     split; [auto|]. split; [auto|]. split; [auto|].
-    cbn [cut_before is_nil andb negb]. eapply to_w; eassumption.
+    split; [cbn [cut_before is_nil andb negb]; eapply to_w; eassumption|].
+    split; [|split; [discriminate|split; discriminate]].
+    intros rs' l3' E. injection E as <- <-.
+    eapply (overflow_run m origin ms rp pad); [exact R1|exact TR|exact R2|].
+    exists true, (set_rsec rc 0), true, (set_rsec rc 0), true, (set_rsec rc 0), (set_rsec rc 0).
+    rewrite add_questions_app, A. cbn [bind fst snd add_questions]. rewrite B. cbn [bind fst snd]. repeat split; reflexivity.
   - destruct (add_questions_SInv _ _ _ _ _ _ I2 S1) as (I3 & _ & _ & FL3).
     destruct b2.
     + injection S3 as <- <-. injection S4 as <- <-. injection R3 as <-.
-      destruct (cut_state_rrsets _ _ _ _ _ _ I3 S2') as (a1 & rs & l3 & rc & EQ & A & -> & FC).
+      destruct (cut_state_rrsets _ _ _ _ _ _ I3 S2') as (a1 & rs & l3 & rc & EQ & A & -> & FC & B).
       cbn [rsec set_rsec Z.ltb Z.compare] in H.
       match type of H with finish _ _ _ _ _ ?x = _ => set (r3c := x) in * end.
       assert (RQ : req r3c rc) by (unfold r3c, req; repeat split; reflexivity).
@@ -362,11 +417,16 @@ Proof.
       exists (mq m), [], a1, (rs :: l3), [], (mau m), [], (mad m).
       split; [symmetry; apply app_nil_r|]. split; [exact EQ|]. repeat (split; [reflexivity|]).
       split; [congruence|]. split; [auto|]. split; [auto|].
-      cbn [cut_before is_nil andb negb]. eapply to_w; eassumption.
+      split; [cbn [cut_before is_nil andb negb]; eapply to_w; eassumption|].
+      split; [discriminate|]. split; [|split; discriminate].
+      intros rs' l3' _ E. injection E as <- <-.
+      eapply (overflow_run m origin ms rp pad); [exact R1|exact TR|exact R2|].
+      exists false, s1, true, (set_rsec rc 1), true, (set_rsec rc 1), (set_rsec rc 1). split; [exact S1|].
+      rewrite add_rrsets_app, A. cbn [bind fst snd add_rrsets]. rewrite B. cbn [bind fst snd]. repeat split; reflexivity.
     + destruct (add_rrsets_SInv _ _ _ _ _ _ _ I3 S2') as (I4 & _ & _ & FL4).
       destruct b3.
       * injection S4 as <- <-. injection R3 as <-.
-        destruct (cut_state_rrsets _ _ _ _ _ _ I4 S3) as (u1 & rs & l3 & rc & EQ & A & -> & FC).
+        destruct (cut_state_rrsets _ _ _ _ _ _ I4 S3) as (u1 & rs & l3 & rc & EQ & A & -> & FC & B).
         cbn [rsec set_rsec Z.ltb Z.compare] in H.
         match type of H with finish _ _ _ _ _ ?x = _ => set (r3c := x) in * end.
         assert (RQ : req r3c rc) by (unfold r3c, req; repeat split; reflexivity).
@@ -375,11 +435,16 @@ Proof.
         exists (mq m), [], (man m), [], u1, (rs :: l3), [], (mad m).
         split; [symmetry; apply app_nil_r|]. split; [symmetry; apply app_nil_r|]. split; [exact EQ|]. split; [reflexivity|].
         split; [congruence|]. split; [congruence|]. split; [auto|].
-        cbn [cut_before is_nil andb negb]. eapply to_w; eassumption.
+        split; [cbn [cut_before is_nil andb negb]; eapply to_w; eassumption|].
+        split; [discriminate|]. split; [discriminate|]. split; [|discriminate].
+        intros rs' l3' _ _ E. injection E as <- <-.
+        eapply (overflow_run m origin ms rp pad); [exact R1|exact TR|exact R2|].
+        exists false, s1, false, s2, true, (set_rsec rc 2), (set_rsec rc 2). split; [exact S1|]. split; [exact S2'|].
+        rewrite add_rrsets_app, A. cbn [bind fst snd add_rrsets]. rewrite B. cbn [bind fst snd]. split; reflexivity.
       * destruct (add_rrsets_SInv _ _ _ _ _ _ _ I4 S3) as (I5 & _ & _ & FL5).
         destruct b4.
         -- injection R3 as <-.
-           destruct (cut_state_rrsets _ _ _ _ _ _ I5 S4) as (d1 & rs & l3 & rc & EQ & A & -> & FC).
+           destruct (cut_state_rrsets _ _ _ _ _ _ I5 S4) as (d1 & rs & l3 & rc & EQ & A & -> & FC & B).
            cbn [rsec set_rsec] in H. change (3 <? 3) with false in H. cbv iota in H.
            match type of H with finish _ _ _ _ _ ?x = _ => set (r3c := x) in * end.
            assert (RQ : req r3c rc) by (unfold r3c, req; repeat split; reflexivity).
@@ -388,7 +453,12 @@ Proof.
            exists (mq m), [], (man m), [], (mau m), [], d1, (rs :: l3).
            split; [symmetry; apply app_nil_r|]. split; [symmetry; apply app_nil_r|]. split; [symmetry; apply app_nil_r|].
            split; [exact EQ|]. split; [congruence|]. split; [congruence|]. split; [congruence|].
-           cbn [cut_before is_nil andb negb]. eapply to_w; eassumption.
+           split; [cbn [cut_before is_nil andb negb]; eapply to_w; eassumption|].
+           split; [discriminate|]. split; [discriminate|]. split; [discriminate|].
+           intros rs' l3' _ _ _ E. injection E as <- <-.
+           eapply (overflow_run m origin ms rp pad); [exact R1|exact TR|exact R2|].
+           exists false, s1, false, s2, false, s3, (set_rsec rc 3). split; [exact S1|]. split; [exact S2'|]. split; [exact S3|].
+           rewrite add_rrsets_app, A. cbn [bind fst snd add_rrsets]. rewrite B. reflexivity.
         -- injection R3 as <-.
            destruct (add_rrsets_SInv _ _ _ _ _ _ _ I5 S4) as (I6 & _ & _ & FL6).
            destruct (replay_core m origin ms rp pad (mflags m) (mq m) (man m) (mau m) (mad m) r1 tr r2 s1 s2 s3 s4 s4 r R1 TR R2 S1 S2' S3 S4
@@ -404,5 +474,19 @@ Proof.
            exists (mq m), [], (man m), [], (mau m), [], (mad m), [].
            repeat (split; [symmetry; apply app_nil_r|]).
            split; [congruence|]. split; [congruence|]. split; [congruence|].
-           cbn [cut_before is_nil andb negb]. eapply to_w; eassumption.
+           split; [cbn [cut_before is_nil andb negb]; eapply to_w; eassumption|].
+           split; [discriminate|]. split; [discriminate|]. split; discriminate.
+Qed.
+
+Theorem trunc_prefix_lemma m origin ms rp pad w :
+  to_wire m origin ms rp true pad = Ok w ->
+  exists q1 q2 a1 a2 u1 u2 d1 d2,
+    mq m = q1 ++ q2 /\ man m = a1 ++ a2 /\ mau m = u1 ++ u2 /\ mad m = d1 ++ d2 /\
+    (q2 <> [] -> a1 = [] /\ u1 = [] /\ d1 = []) /\ (a2 <> [] -> u1 = [] /\ d1 = []) /\ (u2 <> [] -> d1 = []) /\
+    to_wire (cut_msg m (if cut_before q2 a2 u2 then Z.lor (mflags m) fTC else mflags m) q1 a1 u1 d1)
+            origin ms rp false pad = Ok w.
+Proof.
+  intros H. destruct (trunc_prefix_maximal_lemma m origin ms rp pad w H)
+    as (q1 & q2 & a1 & a2 & u1 & u2 & d1 & d2 & A1 & A2 & A3 & A4 & A5 & A6 & A7 & A8 & _).
+  exists q1, q2, a1, a2, u1, u2, d1, d2. auto 10.
 Qed.
